@@ -1,0 +1,32 @@
+// Copyright (c) 2019,CAOHONGJU All rights reserved.
+// Use of this source code is governed by a MIT-style
+// license that can be found in the LICENSE file.
+
+//go:build verif
+// +build verif
+
+package rtsp
+
+import (
+	"bufio"
+
+	"github.com/cnotch/xlog"
+)
+
+// VerifHandler 仅供仿真使用：receive 分发器的回调。
+type VerifHandler interface {
+	OnRequest(req *Request) error
+	OnResponse(resp *Response) error
+	OnPack(pack *RTPPack) error
+}
+
+type verifHandlerAdapter struct{ h VerifHandler }
+
+func (a verifHandlerAdapter) onRequest(req *Request) error    { return a.h.OnRequest(req) }
+func (a verifHandlerAdapter) onResponse(resp *Response) error { return a.h.OnResponse(resp) }
+func (a verifHandlerAdapter) onPack(pack *RTPPack) error      { return a.h.OnPack(pack) }
+
+// VerifReceive 仅供仿真使用：调用未导出的统一消息接收函数 receive。
+func VerifReceive(r *bufio.Reader, channels []int, h VerifHandler) error {
+	return receive(xlog.L(), r, channels, verifHandlerAdapter{h})
+}
